@@ -142,6 +142,10 @@ def namespace_history(draw, n, max_extra=3):
     removed = []
     if extra:
         removed = sorted(draw(st.sets(st.integers(n, n + extra - 1))))
+        if draw(st.booleans()):
+            # an unused taxon joins first: the lowest bit of the namespace is then not on the tree
+            order.remove(n)
+            order.insert(0, n)
     sort = draw(st.sampled_from([None, None, "fwd", "rev", "reverse"]))
     return {"extra": extra, "order": order, "removed": removed, "sort": sort}
 
